@@ -133,8 +133,8 @@ def gen_history(r, nops, ndb=None, wal=None, big=True):
     return ops
 
 
-def make_case(r, nops, **kw):
-    ops = gen_history(r, nops, **kw)
+def make_case(r, nops, ops=None, **kw):
+    ops = ops if ops is not None else gen_history(r, nops, **kw)
     ref = G.Ref()
     exp = [ref.apply(l) for l in ops]
 
@@ -190,9 +190,28 @@ def shrink(ctx, h, case):
     return head + small + ["close"]
 
 
-def explore(ctx, h, drv, nhist, nops, label, **kw):
+def exactfit_cases(ctx, r, h, n, label):
+    """histories that drive one data block to 0-3 free bytes and then grow values in place across the 127/128 record-length
+    boundary (generator shared with C06, which audits the images; here every answer is compared with the reference map)"""
+    from checks import c06
+    cases = []
+    for _ in range(n):
+        g = c06.gen_exactfit_history(r, h, label)
+        if g is None:
+            continue
+        ops = [l for l in g[0] if not l.startswith("image ")]
+        keys = sorted({l.split()[2] for l in ops if l.startswith("put 1 ")})
+        ops = ops[:-2] + ["get 1 %s 0" % k for k in keys] + ops[-2:]
+        ctx.hist("exactfit:free-%d" % g[1]["free"])
+        cases.append(make_case(r, 0, ops=ops))
+    return cases
+
+
+def explore(ctx, h, drv, nhist, nops, label, exactfit=0, **kw):
     r = C.Rng(ctx.seed, "c01/" + label)
     cases = [make_case(r, nops, **kw) for _ in range(nhist)]
+    if exactfit:
+        cases += exactfit_cases(ctx, r, h, exactfit, label)
     for c in cases[:2]:
         ctx.sample(dict(kind="history", first_ops=c.ops[:12], n_ops=len(c.ops)))
     for c in cases:
@@ -227,10 +246,10 @@ def run(ctx):
     h = C.build_harness(impl, *HARNESS[:2], exclude=HARNESS[2])
     drv = C.drv_path() if drv_ok else None
     if ctx.tier == "quick":
-        explore(ctx, h, drv, 60, 300, "q")
+        explore(ctx, h, drv, 60, 300, "q", exactfit=12)
         explore(ctx, h, drv, 4, 3000, "long", big=False)
     else:
-        explore(ctx, h, drv, 600, 400, "t")
+        explore(ctx, h, drv, 600, 400, "t", exactfit=80)
         explore(ctx, h, drv, 20, 10000, "tlong", big=False)
     if (ctx.proof_broken or ctx.corr_broken) and not ctx.violations:
         for i in range(3):
